@@ -274,7 +274,7 @@ pub fn get_declared_type_for_provenance(
 /// structural narrowing operations, which would otherwise call `is_compatible`/`types_overlap`
 /// on a bare `Cycle` — those answer optimistically without the enclosing `type_stack`, which is
 /// unsound for subtraction. The `seen` set guards against malformed self-referential registries.
-fn contains_cycle(type_id: usize, program: &Program, seen: &mut Vec<usize>) -> bool {
+pub(super) fn contains_cycle(type_id: usize, program: &Program, seen: &mut Vec<usize>) -> bool {
     if seen.contains(&type_id) {
         return false;
     }
